@@ -317,7 +317,7 @@ def plan(tier: str):
             for size, level in sizes:
                 for ms in multisets(instances_for(cls, mode2D, level), size):
                     out.append((cls, mode2D, ms))
-            if tier == "thorough" and cls in ("Object", "B"):
+            if tier == "thorough" and cls == "Object":
                 # size 4 restricted to the position / orientation / `with` core
                 keys4 = instances_for(cls, mode2D, CORE) + [k for k in ("w_yaw", "in_r0", "on_m0") if mode2D in INSTS[k].modes]
                 for ms in multisets(sorted(set(keys4), key=ORDER.get), 4):
